@@ -15,7 +15,7 @@ CHECKS = {
         engine="symex",
         category="other",
         text="Bounded symbolic verification: every feasible path of the real Tokenizer.tokenize/merge source on K arbitrary candidate tokens (offsets, kinds and order symbolic, text length unbounded) is explored and the four clauses of C12 are discharged by z3 on each; this is a bounded proof in the number of interacting candidate tokens, not sampling.",
-        note="Bound: K=2 (quick) / K=3 (thorough) candidate tokens. Trusted: the AST interpreter (validated against CPython on the repo's test strings each run), z3, the append_text summary (proved separately on <=6 symbolic characters). What the extractors match is outside (C13/C14).",
+        note="Bound: K=2 plus the K=3 slice over {nominative citation, ordinary citation, section mark} (quick) / K=3 over all nine kinds (thorough) candidate tokens. Trusted: the AST interpreter (validated against CPython on the repo's test strings each run), z3, the append_text summary (proved separately on <=6 symbolic characters). What the extractors match is outside (C13/C14).",
         technique=SYMEX,
         design_ref="DESIGN.md section 3, C12",
     ),
@@ -134,7 +134,7 @@ CHECKS["C19"] = dict(
 
 CHECKS["C01"] = dict(
     engine="rex+symex", category="other",
-    text="PARTIAL. Decided: (1) for every reporter/law/journal string of the installed database that uses the default template, some extractor listing it recognises V R P (and V R at P) for every volume [1-9]\\d* and page \\d+ between non-alphanumeric neighbours - regular-language inclusion by z3, no length bound; (2) the reporter group's language is exactly the listed strings; (3) short-form extractors are derived from full ones; (4) _extract_full_citation's class wiring over edition-source subsets; (5) the real POST_SHORT/POST_FULL patterns, run by a priority-exact symbolic matcher on documented pin-cite contexts with arbitrary digits, capture exactly the written pin cite (matcher validated against the real regex engine on every path); (6) the full span starts at the extracted plaintiff (symbolic add_defendant); (7) the full span of a full case/law/journal citation covers its parenthetical and the closing parenthesis; (8) on year contexts [pin] ( [court] YYYY ) with arbitrary digits and court characters POST_FULL_CITATION_REGEX captures exactly the written pin cite, court and year; (9) the short-form and supra antecedent patterns, anchored as match_on_tokens runs them, capture exactly the written name (and supra volume).",
+    text="PARTIAL. Decided: (1) for every reporter/law/journal string of the installed database that uses the default template, some extractor listing it recognises V R P (and V R at P) for every volume [1-9]\\d* and page \\d+ between non-alphanumeric neighbours - regular-language inclusion by z3, no length bound; (2) the reporter group's language is exactly the listed strings; (3) short-form extractors are derived from full ones; (4) class wiring over edition-source subsets: _extract_full_citation picks the class and both _extract_full_citation and _extract_shortform_citation hand the token's groups and candidate editions on; (5) the real POST_SHORT/POST_FULL patterns, run by a priority-exact symbolic matcher on documented pin-cite contexts (plain, range and page:line shapes) with arbitrary digits, capture exactly the written pin cite (matcher validated against the real regex engine on every path); (6) the full span starts at the extracted plaintiff (symbolic add_defendant); (7) the full span of a full case/law/journal citation covers its parenthetical and the closing parenthesis; (8) on year contexts [pin] ( [court] YYYY ) with arbitrary digits and court characters POST_FULL_CITATION_REGEX captures exactly the written pin cite, court and year; (9) the short-form and supra antecedent patterns, anchored as match_on_tokens runs them, capture exactly the written name (and supra volume).",
     note="NOT decided: captures on longer contexts, party names, court lookup (courts-db table), 'exactly one citation per written citation' under overlapping patterns, full-span ends beyond (7) - these need the capture semantics of the C regex engines over long windows. Reporter strings with custom templates are outside (1)/(2).",
     technique="regular-language inclusion by SMT (z3 seq/re) per extractor + symbolic regex matching over bounded symbolic character arrays + symbolic execution of the Python source",
     design_ref="DESIGN.md section 3, C01",
